@@ -24,6 +24,99 @@ func c10(p *core.Prog, r *core.Report) {
 	c10WriterDrains(p, r)
 	c10Relay(p, r)
 	c10IDs(p, r)
+	c10TimerStop(p, r)
+	c10HelperClose(p, r)
+}
+
+// c10TimerStop: the relay forwards a finishing frame only when the item's
+// timer could still be stopped (finished && !stopped drops the frame: the
+// timeout error frame is, or will be, the terminal frame). That test is only
+// as good as relayTimer.Stop's answer: it says "stopped" only when the
+// underlying timer was stopped before firing - now (time.Timer.Stop) or by an
+// earlier Stop (the stopped flag) - never because the timer is merely inactive,
+// which is also the state of a timer that has fired.
+func c10TimerStop(p *core.Prog, r *core.Report) {
+	f := mustFunc(p, r, "", "relayTimer", "Stop")
+	if f == nil {
+		return
+	}
+	isStoppedFlag := func(v ssa.Value) bool {
+		fl := core.LoadedField(v)
+		return fl != nil && fl.Name() == "stopped"
+	}
+	isTimerStop := func(v ssa.Value) bool { return callResult(v, "time.Timer.Stop") != nil }
+	n := 0
+	core.EachInstr(f, func(i ssa.Instruction) {
+		ret, ok := i.(*ssa.Return)
+		if !ok || core.IsRecoverBlock(i.Block()) {
+			return
+		}
+		rv := core.ReturnValues(ret)
+		if len(rv) != 1 {
+			return
+		}
+		n++
+		var okv func(v ssa.Value, fs facts, d int) bool
+		okv = func(v ssa.Value, fs facts, d int) bool {
+			if d > 4 {
+				return false
+			}
+			if isTimerStop(v) || isStoppedFlag(v) {
+				return true
+			}
+			if b, isC := core.ConstBool(v); isC {
+				return !b || fs.hasBool(isStoppedFlag, true) || fs.hasBool(isTimerStop, true)
+			}
+			if ph, isPhi := v.(*ssa.Phi); isPhi {
+				for k, e := range ph.Edges {
+					pred := ph.Block().Preds[k]
+					if !okv(e, factsAt(pred).add(edgeFacts(pred, ph.Block())), d+1) {
+						return false
+					}
+				}
+				return true
+			}
+			return false
+		}
+		r.Check(okv(rv[0], factsAt(ret.Block()), 0), "C10-R3", fname(f), fmt.Sprintf("Stop reports 'stopped' only for a timer stopped before it fired (return #%d)", n), p.Pos(ret.Pos()),
+			"the result is time.Timer.Stop()'s, or true under the stopped flag", "Stop can answer true for a timer that has already fired (its timeout error frame is on its way): the relay then forwards the late response as well - two terminal frames for one id")
+	})
+	if n == 0 {
+		r.Errorf("relayTimer.Stop: no return found")
+	}
+}
+
+// c10HelperClose: closing the last argument's writer completes the response
+// (the final fragment goes out). ArgWriteHelper closes the writer only after
+// the write callback succeeded; after a failed write the handler reports the
+// failure with an error frame, which must then be the only terminal frame.
+func c10HelperClose(p *core.Prog, r *core.Report) {
+	f := mustFunc(p, r, "", "ArgWriteHelper", "write")
+	if f == nil || len(f.Params) < 2 {
+		return
+	}
+	cb := f.Params[len(f.Params)-1]
+	isCbErr := func(v ssa.Value) bool {
+		c, ok := v.(*ssa.Call)
+		return ok && c.Call.Value == ssa.Value(cb)
+	}
+	n := 0
+	core.EachInstr(f, func(i ssa.Instruction) {
+		c, ok := i.(ssa.CallInstruction)
+		if !ok || !c.Common().IsInvoke() || c.Common().Method.Name() != "Close" {
+			return
+		}
+		n++
+		if _, isDefer := i.(*ssa.Defer); isDefer {
+			r.Fail("C10-R1", fname(f), "writer closed only after a successful write", p.Pos(i.Pos()), "the argument writer is closed by a defer, whatever the write callback returned: a failed write still completes the response and the handler's error frame becomes a second terminal frame")
+			return
+		}
+		r.Check(factsAt(i.Block()).nilCmp(isCbErr, true), "C10-R1", fname(f), "writer closed only after a successful write", p.Pos(i.Pos()),
+			"Close is guarded by the callback's err == nil", "the argument writer is closed although the write callback failed: the response is completed and the handler's error frame becomes a second terminal frame")
+	})
+	if n == 0 {
+		r.Errorf("ArgWriteHelper.write: no Close of the argument writer found")
+	}
 }
 
 func c10Writer(p *core.Prog, r *core.Report) {
@@ -398,6 +491,14 @@ func c10IDs(p *core.Prog, r *core.Report) {
 		}
 		r.Check(ok && n > 0, "C10-R4", fname(f), "refusal error frames carry the request frame's id", p.Pos(f.Pos()), "frame.Header.ID", "refusals are sent under another id")
 	}
+	relayErrorFrameIDs(p, r, "C10-R4")
+}
+
+// relayErrorFrameIDs: the error frames a relay originates for an item
+// (timeout, failure) go out on the item's own connection under the id the
+// caller used there: the id parameter, not the remapped id of the other leg
+// (which on this connection may name another call in flight).
+func relayErrorFrameIDs(p *core.Prog, r *core.Report, rule string) {
 	for _, name := range []string{"timeoutRelayItem", "failRelayItem"} {
 		f := mustFunc(p, r, "", "Relayer", name)
 		if f == nil {
@@ -411,7 +512,7 @@ func c10IDs(p *core.Prog, r *core.Report) {
 				ok = false
 			}
 		}
-		r.Check(ok && n > 0, "C10-R4", fname(f), "relay error frames carry the item's id", p.Pos(f.Pos()), "id parameter passed through", "relay-originated error frame uses another id")
+		r.Check(ok && n > 0, rule, fname(f), "relay error frames carry the item's id", p.Pos(f.Pos()), "id parameter passed through", "relay-originated error frame uses another id")
 	}
 }
 
